@@ -5,5 +5,6 @@ CONSTANTS
   LastChanceAny = {"m", "s", "p"}
   WalkSorted = TRUE
   AssumeUserRange = TRUE
+  QueryTypes = {}
 INVARIANTS OwnActionReachable
 CHECK_DEADLOCK FALSE
